@@ -236,6 +236,11 @@ var foreign = &core.Check{Name: "c01/foreign", Quick: 1500, Thorough: 80000, Fn:
 		roots = append(roots, nodes[c.Choose("root", len(nodes))])
 	}
 	v := drawVariant(c)
+	if v.Magic != 0 {
+		// serialized_boc_idx#68ff65f3 / serialized_boc_idx_crc32c#acc3a728: { roots = 1 }, no root list, root = cell 0
+		roots = roots[:1]
+		c.Class("legacy container")
+	}
 	data := ref.SerializeBOC(roots, v)
 	c.Note("variant", fmt.Sprintf("%+v", v))
 	c.Note("roots", len(roots))
